@@ -1,6 +1,7 @@
 package main
 
 import (
+	"context"
 	"errors"
 	"fmt"
 	"runtime"
@@ -63,6 +64,9 @@ func c08stress(c *Ctx) {
 		yield := r.Bool()
 		multiline := r.Bool()
 
+		// context keys registered on every logger; half of the calls carry their own id under them in the context
+		useCtx := r.Bool()
+
 		// shared values
 		sharedCallGroup := slog.Group("sg", "z", "Z", "a", "A", "m", "M", "a", "A", slog.Group("q", "y", 2, "b", 1)) // deliberately unsorted, with a duplicate
 		sharedLoggerGroup := slog.Group("lg", "w", 1, "c", 2, "k", 3, "c", 2)
@@ -107,6 +111,9 @@ func c08stress(c *Ctx) {
 					own = append(own, "lg.c", "lg.k", "lg.w")
 				}
 			}
+			if useCtx {
+				e.SetContextKeys("cid", ctxKeyT{"rid"})
+			}
 			lgs = append(lgs, lgT{e, f, fmt.Sprintf("W%d", i), own, parent})
 		}
 		// expected key sets per logger
@@ -136,7 +143,7 @@ func c08stress(c *Ctx) {
 		}
 		spyMu := &sync.Mutex{}
 		spyM := map[string]map[int]bool{}
-		var calls int64
+		var calls, ctxCalls int64
 		blanks := make([]int64, nLog)
 		gotBlanks := make([]int64, nLog)
 		var wg sync.WaitGroup
@@ -155,7 +162,13 @@ func c08stress(c *Ctx) {
 					li := gr.Intn(nLog)
 					l := lgs[li].e
 					id := fmt.Sprintf("g%dk%d", g, k)
-					msg := "m-" + id
+					withCtx := useCtx && gr.Bool()
+					ctx, pa, pn := bg, "m-", "n-"
+					if withCtx {
+						ctx = context.WithValue(context.WithValue(bg, "cid", id), ctxKeyT{"rid"}, id+"-r") //nolint:staticcheck // string keys are what the library documents
+						pa, pn = "c-", "d-"
+					}
+					msg := pa + id
 					if multiline {
 						msg += "\nl2-" + id
 					}
@@ -177,28 +190,35 @@ func c08stress(c *Ctx) {
 						continue
 					}
 					if gr.P(20) { // a call without arguments of its own: only the logger's attributes are printed
-						msg = "n-" + id
+						msg = pn + id
 						if multiline {
 							msg += "\nl2-" + id
 						}
-						if gr.Bool() {
+						if gr.Bool() && !withCtx {
 							l.Info(msg)
 						} else {
-							l.WarnContext(bg, msg)
+							l.WarnContext(ctx, msg)
 						}
 						mine[li] = append(mine[li], id)
 						atomic.AddInt64(&calls, 1)
 						continue
 					}
-					switch gr.Intn(4) {
+					x := gr.Intn(4)
+					if withCtx && x < 2 {
+						x += 2
+					}
+					switch x {
 					case 0:
 						l.Info(msg, args...)
 					case 1:
 						l.Warn(msg, args...)
 					case 2:
-						l.InfoContext(bg, msg, args...)
+						l.InfoContext(ctx, msg, args...)
 					default:
-						l.LogAttrs(bg, slog.ErrorLevel, msg, args...)
+						l.LogAttrs(ctx, slog.ErrorLevel, msg, args...)
+					}
+					if withCtx {
+						atomic.AddInt64(&ctxCalls, 1)
 					}
 					mine[li] = append(mine[li], id)
 					atomic.AddInt64(&calls, 1)
@@ -214,7 +234,7 @@ func c08stress(c *Ctx) {
 		wg.Wait()
 
 		evs := log.Events()
-		desc := map[string]any{"goroutines": G, "calls_per_goroutine": N, "gomaxprocs": procs, "loggers": nLog, "inherit": inherit, "writer_delay_us": delay, "yield": yield, "multiline": multiline,
+		desc := map[string]any{"goroutines": G, "calls_per_goroutine": N, "gomaxprocs": procs, "loggers": nLog, "inherit": inherit, "writer_delay_us": delay, "yield": yield, "multiline": multiline, "context_keys": useCtx,
 			"formats": func() []string {
 				var s []string
 				for _, l := range lgs {
@@ -223,6 +243,7 @@ func c08stress(c *Ctx) {
 				return s
 			}()}
 		c.R.Add("calls", calls)
+		c.R.Add("calls_carrying_their_id_in_the_context", ctxCalls)
 		c.R.Add("write_events", int64(len(evs)))
 		c.R.Max("max_writes_in_flight", int64(log.MaxIn))
 		// distinct formatting contexts and how many served several goroutines
@@ -316,9 +337,10 @@ func c08judge(f Format, p []byte, ownKeys []string, multiline bool) (id string, 
 		return "", "does not decode: " + err.Error()
 	}
 	m := d.Msg
-	noArgs := strings.HasPrefix(m, "n-g")
-	if !strings.HasPrefix(m, "m-g") && !noArgs {
-		return "", "message does not start with m-<id> / n-<id>: " + q(clip(m, 80))
+	noArgs := strings.HasPrefix(m, "n-g") || strings.HasPrefix(m, "d-g")
+	withCtx := strings.HasPrefix(m, "c-g") || strings.HasPrefix(m, "d-g")
+	if !strings.HasPrefix(m, "m-g") && !strings.HasPrefix(m, "c-g") && !noArgs {
+		return "", "message does not start with m-<id> / n-<id> / c-<id> / d-<id>: " + q(clip(m, 80))
 	}
 	end := 2
 	for end < len(m) && (m[end] == 'g' || m[end] == 'k' || (m[end] >= '0' && m[end] <= '9')) {
@@ -334,6 +356,17 @@ func c08judge(f Format, p []byte, ownKeys []string, multiline bool) (id string, 
 			return id, "attribute " + a.Key + " appears twice"
 		}
 		got[a.Key] = a.Text
+	}
+	// context values: present exactly when the call carried them, and then this call's own
+	if withCtx {
+		if got["cid"] != id || got["rid"] != id+"-r" {
+			return id, fmt.Sprintf("context attributes cid=%q rid=%q, this call carried %q and %q", got["cid"], got["rid"], id, id+"-r")
+		}
+		ownKeys = append(append([]string(nil), ownKeys...), "cid", "rid")
+	} else if _, ok := got["cid"]; ok {
+		return id, fmt.Sprintf("context attribute cid=%q in the record of a call whose context carried none", got["cid"])
+	} else if _, ok := got["rid"]; ok {
+		return id, fmt.Sprintf("context attribute rid=%q in the record of a call whose context carried none", got["rid"])
 	}
 	if noArgs {
 		// exactly the logger's attributes, each once, with the duplicate resolved to its last value
